@@ -13,11 +13,13 @@
      forall mesh with affine cells, element of degree k, polynomial u of degree <= k solving the model problem,
        Dirichlet/Neumann split along facet sets:  the solve of condense(A, b, x=u_h, D=dofs) = u_h  (u_h the interpolant). *)
 From Coq Require Import String.
+From Coq Require Import QArith.
+Close Scope Q_scope.
 From Coq Require Import List ZArith Bool Arith Ring.
 Import ListNotations.
 Require Import Base.C05_Np Model.C05_BC Model.C06_Galerkin Proofs.C05_CondenseProofs Proofs.C06_GalerkinProofs
-               Base.C09_Poly Base.C09_PolyQ Model.C08_Rules Model.C02_PolyInt Proofs.C06_CompleteProofs Proofs.C06_GreenProofs Proofs.C06_PatchProofs
-               Gen.C06Gen Gen.C06Complete Gen.C06Green Dyn.C06Tie.
+               Base.C09_Poly Base.C09_PolyQ Model.C08_Rules Model.C02_PolyInt Proofs.C06_CompleteProofs Proofs.C02_PolyIntProofs Proofs.C06_GreenProofs Proofs.C06_LinearProofs Proofs.C06_AffineProofs Proofs.C06_PatchProofs
+               Gen.C06Gen Gen.C06Complete Gen.C06Green Gen.C06Ibp Dyn.C06Tie.
 
 Definition is_ring {R} (o : ring_ops R) := ring_theory (r0 o) (r1 o) (radd o) (rmul o) (rsub o) (ropp o) (@eq R).
 
@@ -154,6 +156,40 @@ Theorem C06_green_reference_cells :
 Proof. split; [vm_compute; reflexivity | exact (green_reference_cells gen_green gen_green_ok)]. Qed.
 Print Assumptions C06_green_reference_cells.
 
+(* ... and, pint / pderiv / the facet pull-back being linear, for EVERY polynomial p of the class's degree (not only monomials) *)
+Theorem C06_green_reference_cells_all_polynomials :
+  forall e, In e gen_green -> forall phi, In phi (ge_basis e) -> forall p, gpoly_within e p ->
+    QArith_base.Qeq (green_lhs (rc_shape (ge_cell e)) p phi) (green_rhs (rc_shape (ge_cell e)) (rc_facets (ge_cell e)) p phi).
+Proof. exact (green_reference_cells_all_polynomials gen_green gen_green_ok). Qed.
+Print Assumptions C06_green_reference_cells_all_polynomials.
+
+(* ---- Green's identity on a PHYSICAL AFFINE CELL  x = A X + b.  Everything is written pulled back to reference coordinates:
+     Ainv a j = (A^{-1})_{a j}, adet = |det A|;  (d/dx_j u) o F = sum_a Ainv a j d_a (u o F)   [pointwise chain rule: C09_ChainProofs];
+     n_j dS = adet * (sum_c Ainv c j nu_c) dt on a facet   [Nanson: C10_normals, C10_detB_gram, C10_facet_map_on_face].
+   The physical integrals Icell (over the cell) and Ifacet f j (over facet f, of g n_j dS) are ABSTRACT; the ONLY facts assumed
+   about them are the two change-of-variables rules cv_cell / cv_facet.  From the reference-cell certificates (integration by
+   parts per pair of directions, checked for every class, basis polynomial and monomial, lifted to every polynomial by linearity):
+       int_cell grad_x p . grad_x phi  =  - int_cell (laplace_x p) phi  +  sum_facets int_facet (grad_x p . n) phi
+   for EVERY invertible A (any Ainv, adet), every basis function and every polynomial p of the class's degree. *)
+Theorem C06_green_affine_cell :
+  forall e, In e gen_green ->
+  forall (Ainv : nat -> nat -> QArith_base.Q) (adet : QArith_base.Q) (Icell : poly -> QArith_base.Q)
+         (Ifacet : rfacet -> nat -> poly -> QArith_base.Q),
+    (forall g, QArith_base.Qeq (Icell g) (adet * pint (rc_shape (ge_cell e)) g)%Q) ->
+    (forall f j g, In f (rc_facets (ge_cell e)) ->
+       QArith_base.Qeq (Ifacet f j g)
+         (adet * S (dim (rc_shape (ge_cell e))) (fun c => Ainv c j * nth c (rf_nu f) 0)%Q * facet_pull f g)%Q) ->
+    forall p phi, In phi (ge_basis e) -> gpoly_within e p ->
+      QArith_base.Qeq (Icell (grad_dot_phys e Ainv p phi))
+        (- Icell (pmul (lap_phys e Ainv p) phi)
+         + qsum (map (fun f => S (dim (rc_shape (ge_cell e))) (fun j => Ifacet f j (pmul (Dphys e Ainv j p) phi))) (rc_facets (ge_cell e))))%Q.
+Proof.
+  intros e He Ainv adet Icell Ifacet H1 H2 p phi Hphi Hp.
+  assert (cert : ge_ibp_ok e = true) by (pose proof gen_green_ibp_ok as H; rewrite forallb_forall in H; exact (H e He)).
+  exact (green_affine_cell e cert Ainv adet Icell Ifacet H1 H2 p phi Hphi Hp).
+Qed.
+Print Assumptions C06_green_affine_cell.
+
 (* ---- the patch test from Green's identity, hypotheses explicit (any ring, any mesh connectivity g, any local matrices K_e and
    loads L_e assembled in the library's COO order).  x* = coefficients of the discrete function u_h.
      green_cell : K_e x*|_e (i) = vol e i + sum_s flux e s i           Green on cell e for u_h against phi_{e,i}
@@ -161,9 +197,9 @@ Print Assumptions C06_green_reference_cells.
      cancel     : for a free dof I the remaining facet terms (interior facets: single-valued phi_I [C03_trace_lemma] with opposite
                   normals and no jump of grad u_h . n for a global polynomial; Dirichlet facets: phi_I vanishes) sum to zero
    Conclusion: whatever solves the condensed system (A_II injective), expanded, is x*.
-   What is STILL ASSUMED to instantiate green_cell on a physical affine cell from C06_green_reference_cells is only the affine
-   change of variables: with x = A X + b, grad = A^{-T} grad_ref (C10_jacobian, C10_round_trip), n dS = det(A) A^{-T} nu dt
-   (C10_normals, C10_detB_gram, C10_facet_map_on_face), dx = |det A| dX (C02), and additivity of the integral over the cells;
+   green_cell on a physical affine cell is C06_green_affine_cell; what is STILL ASSUMED there and here are exactly: the two
+   change-of-variables rules for integrals (cv_cell: int_{F(K)} g = |det A| int_K g o F;  cv_facet: int_{F(s)} g n_j dS =
+   |det A| (A^{-T} nu_s)_j int_s g o F), as hypotheses of that theorem, and additivity of the integral over the cells;
    u_h = p uses C06_nodal_interpolant_reproduces (x* = nodal values) and exact quadrature C08/C02.  Hence still _partial. *)
 Theorem C06_patch_test_from_green_partial :
   forall (R : Type) (o : ring_ops R), is_ring o ->
